@@ -14,7 +14,7 @@ from harness.common import *
 from harness import concrete, tn
 from symx import shims, prover, runner
 from symx.engine import DeadPath, run_concrete
-from symx.poly import Sym, S, Atom, psub, padd, pconst
+from symx.poly import Sym, S, Atom, SymDivisionByZero, psub, padd, pconst
 import pytenet.bond_ops as bond_ops
 from pytenet.mps import split_mps_tensor, merge_mps_tensor_pair
 
@@ -77,7 +77,14 @@ def truncation_vcs(eng, acc, all_s, kept, tol, fails):
     if len(kept) + len(disc) != len(all_s) or any(id(x) not in {id(y) for y in all_s} for x in kept):
         fails.append('returned singular values are not a subset of the block singular values')
         return disc
-    w, winv, t = weights(eng, all_s)
+    try:
+        w, winv, t = weights(eng, all_s)
+    except SymDivisionByZero:
+        # the harness's own normalisation found the branch "all values vanish" open on this path: zero vector, nothing may be retained
+        eng.mark('zero_matrix_path')
+        if kept:
+            fails.append('zero vector but singular values retained')
+        return disc
     tk = [ti for x, ti in zip(all_s, t) if id(x) in kept_ids]
     td = [ti for x, ti in zip(all_s, t) if id(x) not in kept_ids]
     eng.mark('truncated_some' if disc else 'kept_all')
@@ -210,8 +217,13 @@ def finish_svd(eng, acc, task, A0, q0, q1, tol, u, s, v, q, snap, inputs, fails,
 
 
 def zero_path(eng, all_s):
-    """did the code take the branch norm(s) == 0 on this path?"""
-    w = eng.sqrt_of(sum_sq(all_s))
+    """did the code take the branch norm(s) == 0 on this path?  (independent of whether the code tests the norm or its square)"""
+    tot = sum_sq(all_s)
+    if tot.is_const():
+        return tot.cval() == 0
+    if eng.known(tot == 0) is True:
+        return True
+    w = eng.sqrt_of(tot)
     return eng.known(S(w) == 0) is True
 
 
